@@ -154,6 +154,6 @@ pub fn run(ctx: &Ctx) {
         |(p, t), l| check(p, t, false, l),
     );
     let n = ctx.tier.pick(10_000, 100_000);
-    ctx.par_proptest("deep-and-wide", n, || (arb_path(), schematree::arb_deep_or_wide(120, 120)), |(p, t), l| check(p, t, false, l));
+    ctx.par_proptest("deep-and-wide", n, || (arb_path(), schematree::arb_deep_or_wide(220, 150)), |(p, t), l| check(p, t, false, l));
     super::corpus_checks::c16(ctx);
 }
